@@ -45,8 +45,19 @@ def user_limit_monitor(ctx, tr, ix):
 
 def run(ctx):
     corr = ctx.corr("DefaultBarMatcher.match", "outcome (rest/reject/cancel/fill quantity, price, close-today part, remainder cancel) of every real matcher call vs model `matchOrder` fed with bundle-derived market inputs, bit-exact prices")
-    tstream.stream(ctx, ctx.n(60, 3000), None, [monitors.c0506_monitor("C05"), user_limit_monitor], extra_sync=lambda c, tr, ix: match_sync.run_sync(c, corr, tr, ix),
-                   cfg_opts=lambda k: {"otp": True})
+    def gen(rnd, k):
+        import bundle as B, trading
+        S = B.gen_market(rnd, ndays=rnd.randrange(10, 26))
+        if S["futures"] and k % 3 == 1:
+            # the first contract carries its own future_info entry whose tick size differs from the underlying's
+            f = S["futures"][0]
+            f["under_info"] = dict(f["info"])
+            f["info"] = dict(f["info"], tick_size=f["info"]["tick_size"] * 5)
+        cfgk = trading.gen_config(rnd, S, {"otp": True})
+        if S["futures"] and k % 3 == 1 and "future" in cfgk["accounts"]:
+            cfgk["sim"].update(slippage_model="TickSizeSlippage", slippage=rnd.choice([1.0, 2.0]), signal=False)
+        return S, cfgk
+    tstream.stream(ctx, ctx.n(60, 3000), None, [monitors.c0506_monitor("C05"), user_limit_monitor], extra_sync=lambda c, tr, ix: match_sync.run_sync(c, corr, tr, ix), gen=gen)
 
 
 def replay(ctx, data):
